@@ -1,4 +1,7 @@
+//@ variant: d0 DEFS=-DXV_DIR=0
+//@ variant: d1 DEFS=-DXV_DIR=1
 //@ tu: tools/xcmrelay/xrelay.c
+//@ defs: $DEFS
 //@ enforce: xfwd_await_input
 //@ props: C20
 //@ expect: postcondition>=3 canary=2
@@ -7,10 +10,11 @@ void harness(void)
 {
     xv_ghost_havoc();
     xv_relay_havoc();
-    struct xfwd *relay;
+    XV_RELAY_SETUP;
     int c0 = xv_legs[0].cond, c1 = xv_legs[1].cond;
     xfwd_await_input(relay);
-    if (xv_src == 0 && c0 == 0 && c1 == (XCM_SO_SENDABLE | XCM_SO_RECEIVABLE) && xv_legs[0].cond == XCM_SO_RECEIVABLE && xv_legs[1].cond == XCM_SO_RECEIVABLE)
-        XV_CANARY("direction 0: switched from output to input, other direction's bits untouched");
-    if (xv_src == 1 && c1 == XCM_SO_SENDABLE && xv_legs[1].cond == (XCM_SO_SENDABLE | XCM_SO_RECEIVABLE)) XV_CANARY("direction 1, other direction awaits output on the same leg");
+    /* the leg this direction receives from already awaits SENDABLE for the other direction: that bit must survive */
+    if (c0 == (XV_DIR == 0 ? XCM_SO_SENDABLE : XCM_SO_SENDABLE | XCM_SO_RECEIVABLE) && c1 == (XV_DIR == 0 ? XCM_SO_SENDABLE | XCM_SO_RECEIVABLE : XCM_SO_SENDABLE))
+        XV_CANARY("switched from output to input while the other direction awaits output on the source leg");
+    if (xv_legs[0].cond == XCM_SO_RECEIVABLE && xv_legs[1].cond == XCM_SO_RECEIVABLE) XV_CANARY("both directions idle afterwards");
 }
